@@ -413,7 +413,20 @@ func e3BigCase(seed uint64, n int) Case {
 		old := runtime.GOMAXPROCS(procs)
 		defer runtime.GOMAXPROCS(old)
 		ctx, cancel := ctxWithCancel()
-		c := kcache.VerifNewCache(ctx, kit.NullLog{Yield: true}, nil, kit.TNull().Build())
+		// the cache's filter accepts everything; when armed it cancels the context from
+		// inside the relist, at its armAt-th object
+		var closing atomic.Bool // the context is being cancelled: reads may now fail (ErrNotRunning), but never lie
+		var armed atomic.Bool
+		var accepts atomic.Int64
+		armAt := int64(1 + rng0.Intn(N-1))
+		F := kit.TFN("accept-all(counting)", func(metav1.Object) bool {
+			if armed.Load() && accepts.Add(1) == armAt {
+				closing.Store(true)
+				cancel()
+			}
+			return true
+		})
+		c := kcache.VerifNewCache(ctx, kit.NullLog{Yield: true}, nil, F.Build())
 		defer func() { cancel(); <-c.Done() }()
 		gen := func(g int) []metav1.Object {
 			out := make([]metav1.Object, N)
@@ -428,7 +441,6 @@ func e3BigCase(seed uint64, n int) Case {
 		}
 		var cur atomic.Int64 // generation whose write has STARTED
 		var done atomic.Bool
-		var closing atomic.Bool // the context is being cancelled: reads may now fail (ErrNotRunning), but never lie
 		var wg sync.WaitGroup
 		var snaps atomic.Int64
 		for rd := 0; rd < R; rd++ {
@@ -549,7 +561,7 @@ func e3BigCase(seed uint64, n int) Case {
 			cur.Store(int64(g))
 			var err error
 			if g%3 == 0 {
-				_, err = c.Refilter(gen(g), kit.TNull().Build())
+				_, err = c.Refilter(gen(g), F.Build())
 			} else {
 				_, err = c.Sync(gen(g))
 			}
@@ -562,25 +574,14 @@ func e3BigCase(seed uint64, n int) Case {
 			// the context is cancelled in the MIDDLE of one more relist while the readers
 			// keep reading: a read may fail from now on, but one that succeeds is still a
 			// complete generation
-			started := make(chan struct{})
-			wdone := make(chan struct{})
-			go func() {
-				defer close(wdone)
-				cur.Store(int64(G + 1))
-				close(started)
-				c.Sync(gen(G + 1))
-			}()
-			<-started
-			spin := rng0.Intn(4000)
-			for i := 0; i < spin; i++ {
-				_ = i * i
+			cur.Store(int64(G + 1))
+			armed.Store(true)
+			c.Sync(gen(G + 1)) // the filter cancels the context at object armAt of this relist
+			if !closing.Load() {
+				r.Inc("the armed filter was not consulted during the relist")
+				closing.Store(true)
+				cancel()
 			}
-			if rng0.Bool() {
-				runtime.Gosched()
-			}
-			closing.Store(true)
-			cancel()
-			<-wdone
 			<-c.Done()
 			r.Add("cancelled-mid-relist", 1)
 		}
